@@ -159,7 +159,16 @@ class World:
         if shape.get("falsy_owner"):
             ns["__len__"] = lambda self_: 0          # an owner object that is falsy (an empty container, say)
         bases = ()
-        if base_ns:
+        if shape.get("sm_owner"):
+            # the owner is a magicbot.StateMachine (which brings tunables of its own: current_state, state_names ...)
+            from magicbot import StateMachine, state
+            def st0(self):
+                pass
+            base_ns["st0"] = state(first=True)(st0)
+            if not base_ns.get("__annotations__"):
+                base_ns["__annotations__"] = base_ann
+            bases = (type("TunBase%d" % self.uid, (StateMachine,), base_ns),)
+        elif base_ns:
             base_ns["__annotations__"] = base_ann
             bases = (type("TunBase%d" % self.uid, (), base_ns),)
         self.cls = type("TunOwner%d" % self.uid, bases, ns)
@@ -312,7 +321,9 @@ def gen_shape(rng):
     for r in redecl:
         if r["type"] in HINTED:
             r["type"] = "float"
+    robot_owner = any(x["kind"] == "robot" for x in insts)
     return {"tunables": tun, "insts": insts, "layers": layers, "redecl": redecl, "insitu": insitu,
+            "sm_owner": rng.random() < 0.25 and not robot_owner,
             "falsy_owner": rng.random() < 0.25 and not (insitu and any(x["kind"] == "robot" for x in insts))}
 
 
